@@ -2019,6 +2019,13 @@ def family_expressions(tier):
     out += [UN('not', x) for x in O['boolean']]
     out += [UN(op, x) for op in ('-', '+') for x in num]
     out += [UN(op, x) for op in ('empty', 'not_empty', 'cardinality') for x in O['inst'] + O['set']]
+    # unary operators applied to the value of unary operators (round 10, C05-20): two nested unaries are two nodes
+    for outer in ('not',):
+        out += [UN(outer, UN(op, x)) for op in ('empty', 'not_empty') for x in O['inst'] + O['set']]
+        out += [UN(outer, UN('not', x)) for x in O['boolean']]
+        out += [UN(outer, UN(outer, UN('empty', x))) for x in O['inst'][:1] + O['set'][:1]]
+    out += [UN('-', UN('-', x)) for x in num[:2]] + [UN('-', UN('cardinality', x)) for x in O['set'][:1]]
+    out += [UN('+', UN('-', x)) for x in num[:1]] + [UN('-', UN('+', x)) for x in num[:1]]
     # depth 3: one operand per type
     i, r, t, s = V('i'), V('r'), V('t'), V('aset')
     AR, CM, LG, ST = ('+', '-', '*', '/', '%'), COMPARISONS, ('and', 'or'), ('|', '&', '^')
